@@ -455,6 +455,34 @@ class Extracted:
             exec(c, env)
             AUTOINLINED.append(ex)
             ex._autoinline(c, env, seen)
+        self._autoinline_classes(code, env, seen, tree)
+
+
+    def _autoinline_classes(self, code, env, seen, tree):
+        """R9 for module-level CLASSES of the same module (a NamedTuple for a result pair, a small context manager or callable class a refactoring
+        introduced): the class statement is compiled as it stands and runs natively; what its body needs is supplied like for a function"""
+        import builtins
+        import hashlib
+        import types
+
+        classes = {st.name: st for st in tree.body if isinstance(st, ast.ClassDef)}
+        for name in sorted(_global_names(code)):
+            if name in env or ("class:" + name) in seen or hasattr(builtins, name) or name not in classes:
+                continue
+            seen.add("class:" + name)
+            node = classes[name]
+            m = ast.Module(body=[node], type_ignores=[])
+            ast.fix_missing_locations(m)
+            path = os.path.join(REPO_PKG, self.relpath)
+            c = compile(m, path, "exec")
+            self._autoinline(c, env, seen)          # bases, decorators and whatever the methods call
+            try:
+                exec(c, env)
+            except Exception:  # noqa: BLE001  (a class that cannot be built from what is supplied stays missing: NameError -> undecided)
+                env.pop(name, None)
+                continue
+            text = ast.unparse(node)
+            AUTOINLINED.append(types.SimpleNamespace(relpath=self.relpath, qualname=name, text=text, sha=hashlib.sha256(text.encode()).hexdigest()))
 
 
 AUTOINLINED = []  # Extracted objects compiled by R9 (drained by ujvc.units.get's caller for the evidence)
